@@ -448,6 +448,68 @@ fn run_reader(stream: &[u8], script: Vec<Step>, block: Option<usize>, judge: Jud
                 &skip_judge
             }
         };
+        // Every judge call also runs the exposed-slice monitor on the record
+        // in progress: its slices must be alive, and bytes seen for the same
+        // record must not change between calls (C05).
+        let judge_fault: std::cell::RefCell<Option<String>> = std::cell::RefCell::new(None);
+        let judge_seen: std::cell::RefCell<(u64, Vec<u8>)> = std::cell::RefCell::new((u64::MAX, Vec::new()));
+        let judge_expose: std::cell::RefCell<ExposeStats> = std::cell::RefCell::new(ExposeStats::default());
+        let owned_ref = &owned;
+        let judge_calls = std::cell::Cell::new(0u64);
+        let monitored_judge = |range: Range<u64>, iov: ConsumingIovec<'_>| -> StreamAction {
+            {
+                let n = judge_calls.get();
+                judge_calls.set(n + 1);
+                // Sampled (the monitor must not dominate the run): the first 16
+                // calls of the run and every 2nd call after that.  A slice that
+                // dangles keeps dangling for the rest of its record, so a later
+                // sampled call still sees it.
+                if n >= 16 && n % 2 != 0 {
+                    return judge_fn(range, iov);
+                }
+                let prefix = iov.stable_prefix();
+                let total = iov.total_size();
+                // Bounded work per call: the oldest 8 slices (first to dangle
+                // when the arena moves on) and the newest 4; everything only
+                // for small records in progress.
+                let full = total <= 4096 && prefix.len() <= 32;
+                let mut res = Ok(());
+                if full || prefix.len() <= 12 {
+                    res = expose::check_view(prefix, owned_ref, &mut judge_expose.borrow_mut());
+                } else {
+                    res = res.and_then(|_| expose::check_view(&prefix[..8], owned_ref, &mut judge_expose.borrow_mut()));
+                    res = res.and_then(|_| expose::check_view(&prefix[prefix.len() - 4..], owned_ref, &mut judge_expose.borrow_mut()));
+                }
+                if let Err(e) = res {
+                    judge_fault.borrow_mut().get_or_insert(format!("while judging the record at {:?}: {}", range, e));
+                } else {
+                    if !full {
+                        return judge_fn(range, iov);
+                    }
+                    let limit = usize::MAX;
+                    let mut cur = Vec::new();
+                    for s in prefix {
+                        if cur.len() >= limit {
+                            break;
+                        }
+                        let k = s.len().min(limit - cur.len());
+                        cur.extend_from_slice(&s[..k]);
+                    }
+                    let mut seen = judge_seen.borrow_mut();
+                    if seen.0 == range.start && !range.is_empty() {
+                        let n = seen.1.len().min(cur.len());
+                        if seen.1[..n] != cur[..n] {
+                            judge_fault.borrow_mut().get_or_insert(format!("decoded bytes of the record at {:?} changed between two judge calls", range));
+                        }
+                    }
+                    if full || seen.0 != range.start {
+                        *seen = (range.start, cur);
+                    }
+                }
+            }
+            judge_fn(range, iov)
+        };
+        let judge_fn = &monitored_judge;
         let mut got = 0usize;
         loop {
             obs.calls += 1;
@@ -459,6 +521,9 @@ fn run_reader(stream: &[u8], script: Vec<Step>, block: Option<usize>, judge: Jud
             let r = sr
                 .next_record_bytes(&mut reader, judge_fn, block)
                 .map_err(|e| fail(&["C06"], "reader-err", format!("next_record_bytes failed on a benign reader: {}", e)))?;
+            if let Some(fault) = judge_fault.borrow_mut().take() {
+                return Err(fail(&["C05"], "expose-in-judge", fault));
+            }
             match r {
                 None => break,
                 Some((iov, range)) => {
@@ -507,6 +572,7 @@ fn run_reader(stream: &[u8], script: Vec<Step>, block: Option<usize>, judge: Jud
             }
         }
         obs.interrupts += reader.interrupts;
+        obs.expose.slices_checked += judge_expose.borrow().slices_checked;
     }
     obs.records += expected.len() as u64;
     obs.oversize += oversize;
